@@ -30,3 +30,13 @@ package exthttp
 //@   props C05 C01 C11
 //@   requires cause != nil
 //@   ensures typeis(payload, *EncodedHTTPCode) ==> typeis(result, *withHTTPCode) && result.(*withHTTPCode).cause == cause && result.(*withHTTPCode).code == payload.(*EncodedHTTPCode).Code
+
+//@ func GetHTTPCode$1
+//@   props C07 C11
+//@   ensures result1 == typeis(err, *withHTTPCode)
+//@   ensures result1 ==> typeis(result0, int) && result0.(int) == err.(*withHTTPCode).code
+
+//@ func GetHTTPCode
+//@   props C07 C11
+//@   ensures !ifOk(err, closure("exthttp.GetHTTPCode$1")) ==> result == defaultCode
+//@   ensures ifOk(err, closure("exthttp.GetHTTPCode$1")) ==> typeis(ifVal(err, closure("exthttp.GetHTTPCode$1")), int) && result == ifVal(err, closure("exthttp.GetHTTPCode$1")).(int)
